@@ -140,6 +140,11 @@ public:
                                                                                \
       return tainted<T, T_Sbx>::internal_factory(reinterpret_cast<T>(target)); \
     } else {                                                                   \
+      /* number op pointer would be native pointer arithmetic: the result */   \
+      /* would be a tainted pointer that no sandbox bounds check has seen */   \
+      static_assert(!std::is_pointer_v<decltype(raw_rhs)>,                     \
+                    "Pointer arithmetic needs the tainted pointer as the "     \
+                    "left operand (raw pointers cannot be used at all)");      \
       auto raw = impl().get_raw_value();                                       \
       auto ret = raw opSymbol raw_rhs;                                         \
       using T_Ret = decltype(ret);                                             \
